@@ -123,10 +123,15 @@ func report(o *options, p *Program, units []*UnitResult, loadSecs, genSecs, solv
 			trusted = append(trusted, u.Name)
 			continue
 		}
-		if u.Err != "" && u.Stale && o.prop != "" {
+		if u.Err != "" && (u.Stale || strings.HasPrefix(u.Err, "unsupported:")) && o.prop != "" {
 			// the contract no longer matches the body (a clause names something the code does not have): the
 			// verifier cannot accept the function, which is reported as a failed obligation, never as a pass
 			name := u.Name + "#contract-matches-body"
+			if !u.Stale {
+				// the body now uses a construct the verifier cannot translate (every unit is translatable on the
+				// pinned tree): the function is not accepted, which is reported, never passed over
+				name = u.Name + "#verifier-accepts-body"
+			}
 			path := filepath.Join(replayDir, sanitize(name)+".json")
 			rep := map[string]any{
 				"property": o.prop, "obligation": name, "kind": "contract-stale", "unit": u.Name,
@@ -138,7 +143,7 @@ func report(o *options, p *Program, units []*UnitResult, loadSecs, genSecs, solv
 			}
 			data, _ := json.MarshalIndent(rep, "", " ")
 			os.WriteFile(path, data, 0o644)
-			lines = append(lines, fmt.Sprintf("VIOLATION property=%s replay=%s obligation=%s result=contract-stale (%s) no-failing-input-found", o.prop, path, name, u.Err))
+			lines = append(lines, fmt.Sprintf("VIOLATION property=%s replay=%s obligation=%s result=not-accepted (%s) no-failing-input-found", o.prop, path, name, u.Err))
 			violations++
 			obligations++
 			exit = 1
